@@ -55,6 +55,8 @@ VARIABLES
   stack,
   \* @type: Str;
   mrst,
+  \* @type: Bool;
+  mkept,    \* the tag that set mrst was written
   \* @type: Seq($tok);
   emitted
 
@@ -80,6 +82,7 @@ Pop == SubSeq(stack, 1, Len(stack) - 1)
 \* @type: ($tok) => Bool;
 StartTag(tok) ==
   /\ tok.t = "start" /\ mrst' = tok.n
+  /\ mkept' = (~Blocked(tok.n) /\ Known(tok.n) /\ ~(tok.a \in {"none", "zero"} /\ tok.n \notin BareOK) /\ ~skip)
   /\ IF Blocked(tok.n) THEN UNCHANGED <<skip, cnt, stack>> /\ emitted' = <<>>                       \* StartBlocked
      ELSE IF ~Known(tok.n) THEN
             /\ IF tok.n \in SkipSet /\ tok.n \notin Voids THEN skip' = TRUE /\ cnt' = cnt + 1        \* StartUnknownSkip
@@ -93,7 +96,7 @@ StartTag(tok) ==
 
 \* @type: ($tok) => Bool;
 EndTag(tok) ==
-  /\ tok.t = "end" /\ mrst' = IF mrst = tok.n THEN "" ELSE mrst
+  /\ tok.t = "end" /\ mrst' = (IF mrst = tok.n THEN "" ELSE mrst) /\ UNCHANGED mkept
   /\ IF Blocked(tok.n) THEN UNCHANGED <<skip, cnt, stack>> /\ emitted' = <<>>                        \* EndBlocked
      ELSE IF TopIs(tok.n, FALSE) THEN stack' = Pop /\ UNCHANGED <<skip, cnt>> /\ emitted' = SpaceIf   \* EndPopsDropped
      ELSE /\ stack' = IF TopIs(tok.n, TRUE) THEN Pop ELSE stack                                       \* marker removed
@@ -107,6 +110,7 @@ EndTag(tok) ==
 \* @type: ($tok) => Bool;
 SelfTag(tok) ==
   /\ tok.t = "self" /\ mrst' = tok.n /\ UNCHANGED <<skip, cnt, stack>>
+  /\ mkept' = (~Blocked(tok.n) /\ Known(tok.n) /\ ~(tok.a \in {"none", "zero"} /\ tok.n \notin BareOK) /\ ~skip)
   /\ IF Blocked(tok.n) THEN emitted' = <<>>
      ELSE IF ~Known(tok.n) THEN emitted' = SpaceIf
      ELSE IF tok.a \in {"none", "zero"} /\ tok.n \notin BareOK THEN emitted' = SpaceIf
@@ -114,19 +118,20 @@ SelfTag(tok) ==
 
 \* @type: ($tok) => Bool;
 Text(tok) ==
-  /\ tok.t = "text" /\ UNCHANGED <<skip, cnt, stack, mrst>>
+  /\ tok.t = "text" /\ UNCHANGED <<skip, cnt, stack, mrst, mkept>>
   /\ emitted' = IF skip THEN <<>>
-                ELSE IF mrst \in Unsafe THEN (IF AllowUnsafe THEN <<[tok EXCEPT !.t = "raw"]>> ELSE <<>>)
+                ELSE IF mrst \in Unsafe THEN (IF ~AllowUnsafe THEN <<>>
+                                              ELSE IF mkept THEN <<[tok EXCEPT !.t = "raw"]>> ELSE <<tok>>)
                 ELSE <<tok>>
 
 \* @type: ($tok) => Bool;
-Comment(tok) == /\ tok.t = "comment" /\ UNCHANGED <<skip, cnt, stack, mrst>>
+Comment(tok) == /\ tok.t = "comment" /\ UNCHANGED <<skip, cnt, stack, mrst, mkept>>
                 /\ emitted' = IF AllowComments /\ ~skip THEN <<tok>> ELSE <<>>
 \* @type: ($tok) => Bool;
-Doctype(tok) == tok.t = "doctype" /\ UNCHANGED <<skip, cnt, stack, mrst>> /\ emitted' = <<>>
+Doctype(tok) == tok.t = "doctype" /\ UNCHANGED <<skip, cnt, stack, mrst, mkept>> /\ emitted' = <<>>
 
 Next == \E tok \in Alphabet : StartTag(tok) \/ EndTag(tok) \/ SelfTag(tok) \/ Text(tok) \/ Comment(tok) \/ Doctype(tok)
-Init == skip = FALSE /\ cnt = 0 /\ stack = <<>> /\ mrst = "" /\ emitted = <<>>
+Init == skip = FALSE /\ cnt = 0 /\ stack = <<>> /\ mrst = "" /\ mkept = FALSE /\ emitted = <<>>
 
 \* whatever a step writes: only allowed elements, comments only when allowed, never a doctype, no script/style and no
 \* raw text unless AllowUnsafe, and never a bare tag of an element that needs attributes  (I01, I05, I02bare per step)
@@ -143,6 +148,6 @@ StackOK == \A i \in DOMAIN stack :
 IndInv == EmittedOK /\ StackOK
 
 IndInit ==
-  /\ skip \in BOOLEAN /\ cnt \in Int /\ stack = Gen(3) /\ mrst \in Names \cup {""} /\ emitted = Gen(1)
+  /\ skip \in BOOLEAN /\ cnt \in Int /\ stack = Gen(3) /\ mrst \in Names \cup {""} /\ mkept \in BOOLEAN /\ emitted = Gen(1)
   /\ IndInv
 =============================================================================
